@@ -253,6 +253,10 @@ static int __check_hmac(jwt_t *jwt)
 {
 	int key_bits = jwt->key->bits;
 
+	/* Only "oct" keys carry HMAC key material */
+	if (jwt->key->kty != JWK_KEY_TYPE_OCT)
+		return 1;
+
 	switch (jwt->alg) {
 	case JWT_ALG_HS256:
 		if (key_bits >= 256)
@@ -286,6 +290,12 @@ static int __check_hmac(jwt_t *jwt)
 static int __check_key_bits(jwt_t *jwt)
 {
 	int key_bits = jwt->key->bits;
+
+	/* An "oct" key has no provider key object to sign or verify with */
+	if (jwt->key->kty == JWK_KEY_TYPE_OCT) {
+		jwt_write_error(jwt, "Key type does not match algorithm");
+		return 1;
+	}
 
 	switch (jwt->alg) {
 	case JWT_ALG_RS256:
